@@ -1,19 +1,93 @@
-(* Property C09 -- exporting a problem and parsing it back preserves it.  Statements only. *)
+(* Property C09 -- exporting a problem and parsing it back preserves it.  Statements only; proofs in Proofs/C09_*.v.
+
+   Setting.  As in Props/C05.v; [export_problem repr_text gd dname pb] is the token tree of the text
+   ProblemExporter writes (Model/ProblemExporter.v; the implementation's text is read back by the model's tokenizer
+   on every run and compared with it).  repr(float) is NOT modelled: [repr_text] is any function with the
+   hypothesis [repr_ok num repr_text sp]:  num (repr_text x) = Some x  for every fluent value and goal constant x
+   of the problem (float(repr(x)) == x, trusted base, re-checked on every value the harness sees).  [gd = None]: goal constants printed with repr (the tree with fix D50); [Some d]: "{:.df}".
+   [same_obs a b]: same name, same object table, same fact set, same fluent map, same goal literals in order,
+   same numeric goals; it implies pdump_equiv (C09_same_obs_equiv).
+
+   FULL STATEMENT (C09_roundtrip_statement in Proofs/C09_Examples.v): for every parsed problem, parsing its export
+   succeeds and gives an equivalent problem.  It is FALSE for the current code:
+     C09_roundtrip_refuted   finding D07: initial fluents (g3 b a a) and (g3 a a b) are both exported as (g3 a a b)
+                             and come back as ONE fluent
+   and was false on the pinned exporter in one more way (C09_pinned_refuted: D50, goal constants at 4 decimals).
+   What holds for every problem of the grammar whose initial fluents have no repeated argument:
+     C09_roundtrip           the export parses, the result has the same observables, and a second round too
+     C09_empty_sections      empty sections stay empty *)
 From Coq Require Import List String Bool PrimFloat.
 From Verif Require Import Base.Result Base.Str Base.Sexp Base.PyDict Model.Domain Model.NumExpr Model.Problem
-  Model.ProblemObs Model.ProblemExporter Spec.Pddl Spec.Grammar Spec.Problem Proofs.C05_Examples.
+  Model.ProblemObs Model.ProblemExporter Spec.Pddl Spec.Grammar Spec.Problem
+  Proofs.C05_Items Proofs.C05_Parse Proofs.C05_Faithful Proofs.C05_Examples Proofs.C05_Main
+  Proofs.C09_Export Proofs.C09_Round Proofs.C09_Main Proofs.C09_Examples.
 Import ListNotations.
 Open Scope string_scope.
 
-Definition ex_repr (x : float) : string :=
-  if PrimFloat.eqb x 3.5%float then "3.5" else if PrimFloat.eqb x 2%float then "2" else
-  if PrimFloat.eqb x (-1000)%float then "-1e3" else "1".
+Theorem C09_roundtrip : forall num repr_text dom, dom_ok dom -> num_ok num -> forall e sp pb,
+  read_problem num e = Some sp -> repr_ok num repr_text sp -> no_repeats sp = true -> sp_name sp <> "" ->
+  parse_problem cfg_fixed num dom e = Ok pb ->
+  exists pb', parse_problem cfg_fixed num dom (export_problem repr_text None (d_name dom) pb) = Ok pb' /\
+              same_obs pb' pb /\
+  exists pb'', parse_problem cfg_fixed num dom (export_problem repr_text None (d_name dom) pb') = Ok pb'' /\
+               same_obs pb'' pb.
+Proof. exact C09_roundtrip_lemma. Qed.
 
-(* a non-trivial problem survives export and re-parse *)
+Theorem C09_same_obs_equiv : forall a b, same_obs a b -> pdump_equiv (dump_problem a) (dump_problem b) = true.
+Proof. exact same_obs_equiv. Qed.
+
+Theorem C09_empty_sections : forall a b, same_obs a b ->
+  (pd_objects (dump_problem b) = [] -> pd_objects (dump_problem a) = []) /\
+  (pd_facts (dump_problem b) = [] -> pd_facts (dump_problem a) = []) /\
+  (pd_fluents (dump_problem b) = [] -> pd_fluents (dump_problem a) = []) /\
+  (pd_goal (dump_problem b) = [] -> pd_goal (dump_problem a) = []) /\
+  (pd_goal_num (dump_problem b) = [] -> pd_goal_num (dump_problem a) = []).
+Proof. exact same_obs_empty. Qed.
+
+(* D07: two initial fluents with repeated arguments that print alike are merged by the round trip *)
+Theorem C09_roundtrip_refuted : ~ C09_roundtrip_statement None.
+Proof. exact C09_roundtrip_refuted_lemma. Qed.
+
+(* the hypotheses of C09_roundtrip are satisfiable by a non-trivial problem (5 numeric values) *)
+Theorem C09_nonvacuous :
+  dom_ok ex_dom /\ num_ok ex_num9 /\
+  exists sp, read_problem ex_num9 ex_problem = Some sp /\ repr_ok ex_num9 ex_repr9 sp /\ no_repeats sp = true /\
+             sp_name sp <> "" /\ List.length (values_of ex_num9 sp) = 5 /\
+             exists pb, parse_problem cfg_fixed ex_num9 ex_dom ex_problem = Ok pb.
+Proof. exact (conj ex_dom_ok (conj ex_num9_ok C09_hypotheses_satisfiable)). Qed.
+
+(* D50 on the pinned exporter (Some 4) versus the repaired one (None) *)
+Theorem C09_pinned_refuted :
+  exists pb pb', parse_problem cfg_fixed ex_num9 ex_dom d50_problem = Ok pb /\
+    parse_problem cfg_fixed ex_num9 ex_dom (export_problem ex_repr9 (Some 4) "dom" pb) = Ok pb' /\
+    pdump_equiv (dump_problem pb') (dump_problem pb) = false /\
+    exists pb2, parse_problem cfg_fixed ex_num9 ex_dom (export_problem ex_repr9 None "dom" pb) = Ok pb2 /\
+                pdump_equiv (dump_problem pb2) (dump_problem pb) = true.
+Proof. exact C09_pinned_exporter_loses_precision. Qed.
+
+(* a non-trivial problem and the empty problem round-trip (computed on the model) *)
 Theorem C09_example :
-  exists pb pb', parse_problem cfg_fixed ex_num ex_dom ex_problem = Ok pb /\
-    parse_problem cfg_fixed ex_num ex_dom (export_problem ex_repr None "dom" pb) = Ok pb' /\
-    pdump_equiv (dump_problem pb') (dump_problem pb) = true.
-Proof. eexists. eexists. split; [vm_compute; reflexivity|]. split; vm_compute; reflexivity. Qed.
+  exists pb pb' pb'',
+    parse_problem cfg_fixed ex_num9 ex_dom ex_problem = Ok pb /\
+    parse_problem cfg_fixed ex_num9 ex_dom (export_problem ex_repr9 None "dom" pb) = Ok pb' /\
+    pdump_equiv (dump_problem pb') (dump_problem pb) = true /\
+    parse_problem cfg_fixed ex_num9 ex_dom (export_problem ex_repr9 None "dom" pb') = Ok pb'' /\
+    pdump_equiv (dump_problem pb'') (dump_problem pb) = true /\
+    List.length (pd_facts (dump_problem pb)) = 4 /\ List.length (pd_fluents (dump_problem pb)) = 3 /\
+    List.length (pd_goal_num (dump_problem pb)) = 2.
+Proof. exact C09_example_roundtrip. Qed.
 
+Theorem C09_example_empty_thm :
+  exists pb pb', parse_problem cfg_fixed ex_num9 ex_dom empty_problem_text = Ok pb /\
+    parse_problem cfg_fixed ex_num9 ex_dom (export_problem ex_repr9 None "dom" pb) = Ok pb' /\
+    dump_problem pb' = {| pd_name := "pr"; pd_objects := []; pd_facts := []; pd_fluents := []; pd_goal := []; pd_goal_num := [] |}.
+Proof. exact C09_example_empty. Qed.
+
+Print Assumptions C09_roundtrip.
+Print Assumptions C09_same_obs_equiv.
+Print Assumptions C09_empty_sections.
+Print Assumptions C09_roundtrip_refuted.
+Print Assumptions C09_nonvacuous.
+Print Assumptions C09_pinned_refuted.
 Print Assumptions C09_example.
+Print Assumptions C09_example_empty_thm.
